@@ -27,7 +27,8 @@ CLAIMED = {
        "with the members' values (`th` / `mtag` rows; the repository's interop transcript vectors are `#guard`-checked as well). `thp` rows: the same two hashes for ENCRYPTED commits (wire format 2) from the FramedContent, signature and tag a receiver decrypts (hook verif_open_private_message). "
        "`eks` rows: for every commit WITHOUT an update path of those histories (and of the C18 PSK scenarios) the epoch the real group enters - resumption, sender-data, encryption, exporter, authentication, "
        "external and init secret, membership key and the commit's confirmation tag - is recomputed by KS.epochOfCommit from the previous epoch's init secret, the all-zero commit secret, the NEW group context and the "
-       "PSK ids (nonces as sent) in the order of the commit message: ties how the group state machine drives the schedule, which no agreement oracle can see.",
+       "PSK ids (nonces as sent) in the order of the commit message: ties how the group state machine drives the schedule, which no agreement oracle can see. "
+       "`extpub` rows: the external public key published in the GroupInfo of every epoch (suites 1, 3) = DeriveKeyPair(external_secret).pk recomputed by the HPKE model and a Lean X25519 reference.",
   note="Trusted: Lean kernel; Lean SHA-2/HMAC/HKDF reference (checked against published vectors and python hashlib, not proved); hand-written model validated by the "
        "byte-level correspondence. Straight-line parts of the schedule are near-rfl; content is in the secret tree, ratchet, PSK chain. Transcript hashes and membership tags of ENCRYPTED handshake "
        "messages are exercised by the group-level agreement oracle only. "
